@@ -7,7 +7,9 @@ Four monitor groups, all on the real classes through their public API only:
              quadrature is certified by refinement (same samples at 2h and on a narrower window must agree to
              1e-10) before it is judged: cross-section integral == E_p/(c tau) at every sampled z (bivariate,
              Gaussian beam), volume integral == E_p (trivariate), disk integral == energy_density * pi r^2 and
-             every sample == energy_density (uniform).
+             every sample == energy_density (uniform).  The measured widths are also compared with the documented
+             parameters (stddev_x, stddev_y, c*pulse_length for the trivariate pulse, stddev_waist at the waist): an
+             energy density that ignores a width parameter does not track it.
   tiling   : generate_segmented_cylinder / <profile>.generate_geometry() / Laser.get_geometry(): segments are
              z-translated cylinders of the laser radius, the first starts at 0, consecutive ones abut, the last
              ends at the laser length, heights sum to the length (1e-12 * length).
@@ -32,7 +34,7 @@ RULE = ("cases are drawn per kind: 'quad' (profile class, E_p 1e-3..1e2 J, tau 1
         "1-3 axial positions), 'tiling' (radius x length incl. length < 2 radius, length = k*2*radius +- 1 ulp, decimal "
         "radii, ratios up to 2000, via the function / a profile / an attached Laser), 'spectrum' (range 1e-3..1e2 nm "
         "wide at 300..1100 nm, 1..500 bins, Gaussian mean centred / inside / on an edge / outside / spanned), "
-        "'history' (one of the six classes, 1..12 random valid setter calls, profiles attached to a Laser node); a case is "
+        "'history' (one of the six classes, 1..12 (thorough: ..30) random valid setter calls, profiles attached to a Laser node); a case is "
         "non-trivial when at least one deciding comparison (certified quadrature, tiling chain, bin integral, or a "
         "live-vs-fresh comparison after >= 1 setter) was evaluated; distinct = distinct fully expanded case dicts")
 LEVEL_TEXT = ("Exploration by runtime monitoring with reference-model and differential oracles: every generated parameter set "
@@ -40,7 +42,7 @@ LEVEL_TEXT = ("Exploration by runtime monitoring with reference-model and differ
               "without cherab code, and every setter history against a freshly constructed object; right level because the "
               "quantifier ranges over continuous parameters and unbounded setter sequences of deterministic code")
 LEVEL_NOTE = ("trusted: numpy/scipy (ndtr) for the reference integrals, the refinement certificate of the trapezoid "
-              "quadrature, c = 299792458 m/s; histories are bounded to 12 setters with valid (positive) values only")
+              "quadrature, c = 299792458 m/s; histories are bounded to 12 (thorough: 30) setters with valid (positive) values only")
 TECHNIQUE = ("runtime monitoring: conservation monitor (certified quadrature of the observed energy density), structural "
              "monitor on generated segments, reference-model oracle for binned spectra, history + fresh-object differential")
 ASSUMPTIONS = [
@@ -52,12 +54,15 @@ ASSUMPTIONS = [
     "the unit-power densities are the documented ones: 1/(max-min) on [min,max] (ConstantSpectrum), N(mean, stddev) "
     "(GaussianSpectrum); 'range spans the line' = [min,max] contains mean +- 9 stddev (Gaussian), always (constant)",
     "setter values are valid (positive where the class demands it); rejected values are outside the quantifier",
+    "width parameters mean what the class documentation says: stddev_x / stddev_y / stddev_waist (at the waist) are the "
+    "standard deviations of the transverse Gaussian, c * pulse_length that of the trivariate pulse along z; the Gaussian-beam "
+    "divergence (Rayleigh range) is NOT judged because documentation and code use different conventions",
 ]
-QUICK = dict(cases=420, workers=2, timecap=45)
-THOROUGH = dict(cases=42000, workers=16, timecap=600)
+QUICK = dict(cases=800, workers=2, timecap=45)
+THOROUGH = dict(cases=80000, workers=16, timecap=600)
 REQUIRED = {"quad_xsec": 60, "quad_volume": 4, "quad_uniform": 8, "tiling_lists": 40, "bins": 2000, "sum": 40,
             "sum_unity": 20, "density": 300, "hist_steps": 300, "hist_energy_density": 1000, "hist_geometry": 100,
-            "hist_psd": 1000, "reported": 1500}
+            "hist_psd": 1000, "reported": 1500, "width": 60}
 
 C_LIGHT = 299792458.0      # m/s, exact by SI definition (own constant, not imported from cherab)
 PROFILES = ("UniformEnergyDensity", "ConstantBivariateGaussian", "TrivariateGaussian", "GaussianBeamAxisymmetric")
@@ -260,9 +265,11 @@ def _gen_spectrum(rng):
     return case
 
 
-def _gen_history(rng):
+def _gen_history(rng, tier="quick"):
     ci = int(rng.integers(6))
     nops = int(rng.integers(1, 13))
+    if tier == "thorough" and rng.random() < 0.2:
+        nops = int(rng.integers(13, 31))
     ops = []
     if ci < 4:
         cls = PROFILES[ci]
@@ -312,7 +319,7 @@ def gen_case(rng, tier):
         return _gen_tiling(rng)
     if u < 0.72:
         return _gen_spectrum(rng)
-    return _gen_history(rng)
+    return _gen_history(rng, tier)
 
 
 def fixed_cases(tier):
@@ -347,7 +354,7 @@ def fixed_cases(tier):
     out.append(dict(kind="history", cls="GaussianSpectrum", init=SG, attach=False,
                     ops=[["mean", 1062.0], ["bins", 11], ["stddev", 0.2], ["max_wavelength", 1070.0], ["mean", 1065.0]]))
     # spectra: documented example, suite example, one bin, ranges known to lose an edge by rounding
-    for mn, mx, b in ((1063.9, 1064.1, 1), (1039.9, 1040.1, 10), (1059.0, 1069.0, 20), (400.0, 400.7, 3), (300.1, 300.4, 1),
+    for mn, mx, b in ((1063.9, 1064.1, 1), (1039.9, 1040.1, 10), (1059.0, 1069.0, 20), (400.0, 400.7, 3), (300.7, 300.9, 1), (512.1, 512.4, 2),
                       (1063.9, 1064.1, 7), (532.0, 532.3, 49), (694.3, 694.301, 500)):
         out.append(dict(kind="spectrum", cls="ConstantSpectrum", min=mn, max=mx, bins=b))
     for mn, mx, b, m, s, k in ((1035.0, 1045.0, 100, 1040.0, 0.5, "spanned"), (1063.0, 1065.0, 1, 1064.0, 0.05, "spanned"),
@@ -505,6 +512,13 @@ def _certified(full, coarse, narrow):
     return abs(coarse - full) <= CERT * s and abs(narrow - full) <= CERT * s
 
 
+def _judge_widths(ctx, cls, items):
+    for name, got, want in items:
+        _judge(ctx, got, want, QTOL * want, "width:%s:%s-not-the-measured-standard-deviation" % (cls, name),
+               "the standard deviation measured from the energy density differs from the documented width parameter",
+               "width", parameter=name)
+
+
 def _run_quad(case, ctx):
     cls, P = case["cls"], case["params"]
     ctx.cls("quad:" + cls)
@@ -546,6 +560,9 @@ def _run_quad(case, ctx):
         _judge(ctx, full, P["pulse_energy"], QTOL * P["pulse_energy"], "quad:TrivariateGaussian:volume-integral",
                "volume integral of the energy density differs from the pulse energy", "quad_volume",
                widths=[sx, sy, sz], widths_measured=measured)
+        if measured:
+            _judge_widths(ctx, cls, (("stddev_x", sx, P["stddev_x"]), ("stddev_y", sy, P["stddev_y"]),
+                                     ("pulse_length", sz, s0z)))
         return
     want = P["pulse_energy"] / (C_LIGHT * P["pulse_length"])
     for z in case["zs"]:
@@ -567,6 +584,12 @@ def _run_quad(case, ctx):
         _judge(ctx, full, want, QTOL * want, "quad:%s:cross-section-integral" % cls,
                "integral of the energy density over the cross-section differs from pulse_energy / (c * pulse_length)",
                "quad_xsec", z=z, widths=[sx, sy], widths_measured=measured)
+        if measured and cls == "ConstantBivariateGaussian":
+            _judge_widths(ctx, cls, (("stddev_x", sx, P["stddev_x"]), ("stddev_y", sy, P["stddev_y"])))
+        elif measured and z == P["waist_z"]:
+            # only at the waist: away from it the class documentation (z_R = pi w0^2 / lambda with w0 "the standard
+            # deviation") and the code (2 pi sigma0^2 / lambda) disagree and the property does not say which is meant
+            _judge_widths(ctx, cls, (("stddev_waist", sx, P["stddev_waist"]), ("stddev_waist", sy, P["stddev_waist"])))
 
 
 # ------------------------------------------------------------------------------------------------
@@ -850,11 +873,15 @@ def _reported(ctx, obj, M, cls, seen):
                      "wavelengths are not min + (i + 1/2) (max - min) / bins of the parameters that were set")
     else:
         exp = [(n, getattr(obj, n), M[n], 0.0) for n in PROFILE_PARAMS[cls]]
-        from raysect.core import Vector3D
-        u = Vector3D(*M["polarization"]).normalise()
+        # direction only (the statement does not say the reported vector has unit length)
+        u = np.array(M["polarization"], dtype=float)
+        u = u / np.linalg.norm(u)
         a = obj.get_polarization(0.0, 0.0, 0.0)
-        for c, g_, w_ in (("x", a.x, u.x), ("y", a.y, u.y), ("z", a.z, u.z)):
-            exp.append(("get_polarization." + c, g_, w_, 4e-16))
+        a = np.array([a.x, a.y, a.z])
+        na = float(np.linalg.norm(a))
+        a = a / na if na > 0 and math.isfinite(na) else a * float("nan")
+        for c, g_, w_ in (("x", a[0], u[0]), ("y", a[1], u[1]), ("z", a[2], u[2])):
+            exp.append(("get_polarization." + c, g_, w_, 1e-14))
     for name, got, want, tol in exp:
         bad, _, _, _ = _cmp(ctx, float(got), float(want), tol, "reported")
         if bad.any() and name not in seen:
